@@ -212,7 +212,7 @@ theorem stepCol_slot (k : NumKind) (c : Col) (o : Op) (i : Nat) (hb : o.idx < c.
     slot (stepCol k c o) i = if i = o.idx then slotEffect c.merge k.width (slot c i) o else slot c i := by
   rw [stepCol_eq]; exact stepNum_slot k (c, [], []) o i hb hd
 
-theorem InBounds.tail {c : Col} {o : Op} {os : List Op} (k : NumKind) (h : InBounds c (o :: os)) :
+theorem InBounds.tailK {c : Col} {o : Op} {os : List Op} (k : NumKind) (h : InBounds c (o :: os)) :
     InBounds (stepCol k c o) os := by
   intro x hx
   have hs := stepCol_shape k c o
@@ -273,7 +273,7 @@ theorem rwList_eq_mapIdx (k : NumKind) (ops : List Op) (c : Col) (hin : InBounds
   | nil => simp [rwList]
   | cons o os ih =>
     have ho := hin o (by simp)
-    rw [rwList, List.mapIdx_cons, colAfter_zero, outOp_eq_finalOp k c o ho.1 ho.2, ih _ (hin.tail k)]
+    rw [rwList, List.mapIdx_cons, colAfter_zero, outOp_eq_finalOp k c o ho.1 ho.2, ih _ (hin.tailK k)]
     simp only [colAfter_succ]
 
 theorem outOp_idx (k : NumKind) (c : Col) (o : Op) : (outOp k c o).idx = o.idx := by
@@ -350,7 +350,7 @@ theorem trig_rwList (k : NumKind) (ops : List Op) (c : Col) (hin : InBounds c op
     have h := trig_of_outOp k c o ho.1 ho.2
     rw [rwList, List.mapIdx_cons, colAfter_zero, List.filterMap_cons, ← h]
     simp only [colAfter_succ]
-    rw [← ih _ (hin.tail k), List.filter_cons]
+    rw [← ih _ (hin.tailK k), List.filter_cons]
     by_cases hs : isStoreOrDelete (outOp k c o) = true
     · rw [if_pos hs, if_pos hs]; simp
     · rw [if_neg hs, if_neg hs]; simp
@@ -426,7 +426,7 @@ theorem indexInv_fold (k : NumKind) (rule : RuleFn) (ops : List Op) (col idx : C
     have ho := hin o (by simp)
     simp only [List.foldl_cons, rwList]
     apply ih
-    · exact hin.tail k
+    · exact hin.tailK k
     · intro x hx; exact hcan x (by simp [hx])
     · rw [(stepCol_shape k col o).merge]; intro x hx; exact hm x (by simp [hx])
     · exact indexInv_step k rule col idx o ho.1 ho.2 (hcan o (by simp)) (hm o (by simp)) hinv
